@@ -527,9 +527,37 @@ func (g *gen) byteSrc(depth int) *node {
 	case 4:
 		return &node{kind: "C", kids: []*node{g.byteSrc(depth - 1)}}
 	case 5:
-		return &node{kind: "Y", kids: []*node{g.bitSrc(depth-1, true)}}
+		// a byte view INSIDE a composition is built over a byte-regular bit source only: IOReadSeeker.Seek
+		// from current/end on a source whose reads are not byte multiples is the known finding
+		// ioreadseeker-unaligned-seek, which the driver can attribute only when the view is the top reader
+		return &node{kind: "Y", kids: []*node{g.alignedBitSrc(depth - 1)}}
 	default:
 		return g.byteSrc(0)
+	}
+}
+
+// alignedBitSrc generates a bitio.ReadSeeker whose length and internal read boundaries are byte multiples
+func (g *gen) alignedBitSrc(depth int) *node {
+	if depth <= 0 {
+		return &node{kind: "B", data: g.data(96), a: -1}
+	}
+	switch g.r.Intn(4) {
+	case 0:
+		k := g.alignedBitSrc(depth - 1)
+		off, n := g.sub(k.length() / 8)
+		return &node{kind: "S", a: off * 8, b: n * 8, kids: []*node{k}}
+	case 1:
+		m := &node{kind: "M"}
+		for i := g.r.Range(1, 3); i > 0; i-- {
+			m.kids = append(m.kids, g.alignedBitSrc(depth-1))
+		}
+		return m
+	case 2:
+		i := &node{kind: "I", kids: []*node{g.byteSrc(depth - 1)}}
+		off, n := g.sub(i.length() / 8)
+		return &node{kind: "S", a: off * 8, b: n * 8, kids: []*node{i}}
+	default:
+		return g.alignedBitSrc(0)
 	}
 }
 
@@ -1123,9 +1151,9 @@ func main() {
 	rn.boundarySweep(r.Fork())
 	o.Stat("exhaustive_small_domain", 1)
 
-	nHist, nBare, nBW, nAheadS, nAheadL := 1500, 150, 300, 300, 12
+	nHist, nBare, nBW, nAheadS, nAheadL := 6000, 400, 1000, 1500, 16
 	if cfg.Thorough() {
-		nHist, nBare, nBW, nAheadS, nAheadL = 30000, 3000, 5000, 6000, 60
+		nHist, nBare, nBW, nAheadS, nAheadL = 90000, 6000, 12000, 20000, 100
 	}
 	rn.bitWriter(r.Fork(), nBW)
 	rn.aheadDirect(r.Fork(), nAheadS, nAheadL)
